@@ -241,6 +241,16 @@ func LoadContracts(repo string, schemaDir string, stdlibDir string, overlay map[
 	if err != nil {
 		return nil, err
 	}
+	// generated verifier-only files that exist only in the overlay
+	onDisk := map[string]bool{}
+	for _, f := range files {
+		onDisk[f] = true
+	}
+	for f := range overlay {
+		if !onDisk[f] && strings.HasPrefix(filepath.Base(f), "zz_verif_") && strings.HasSuffix(f, ".go") {
+			files = append(files, f)
+		}
+	}
 	sort.Strings(files)
 	for _, f := range files {
 		rel, _ := filepath.Rel(repo, filepath.Dir(f))
